@@ -126,6 +126,12 @@ class Pools:
         fl += [rnd.uniform(-1000, 1000) for _ in range(n(5))] + [rnd.uniform(-2, 2) for _ in range(n(5))]
         fl += [float(rnd.randint(-5000, 5000)) for _ in range(n(5))]
         self.f64 = uniq([fspec(x) for x in fl])
+        # field grids: every combination of the clock fields at 0 / 1 / their maximum (a field that is exactly 0 or exactly
+        # one unit while its neighbours are 0 or full: carries, borrow and "skip the zero field" shortcuts)
+        self.t_grid = [[h * 3600 + mi * 60 + sc, us] for h in (0, 1, 12, 23) for mi in (0, 1, 59) for sc in (0, 1, 59)
+                       for us in (0, 1, 999999)]
+        self.dt_grid = [us3(sg * ((d * 86400 + h * 3600 + mi * 60 + sc) * 10**6 + us)) for sg in (1, -1) for d in (0, 45)
+                        for h in (0, 7, 23) for mi in (0, 1, 59) for sc in (0, 1, 59) for us in (0, 1, 999999)]
         self.unit = list(range(1, 13))
         self.clock = [[2024, 2, 29, 13, 14, 15, 123456], [1, 1, 1, 0, 0, 0, 0], [9999, 12, 31, 23, 59, 59, 999999],
                       [10000, 1, 1, 0, 0, 0, 0], [0, 12, 31, 12, 0, 0, 0], [1970, 1, 1, 0, 0, 0, 1], [2023, 1, 31, 1, 2, 3, 4]]
